@@ -26,6 +26,26 @@ def run(ctx):
                                    depth=52, seed=ctx.seed + 7, timeout=3000)
         for b in allb[:3]:
             ctx.sample([{k: s.get(k) for k in ("op", "i", "res", "unres", "nstored", "map") if k in s} for s in b[:14]])
+    # one level higher: the sync processor (service/sync2) with peers answering in TLC-chosen ways (spec/trie/SyncProc.tla)
+    procb = []
+    if ctx.replay and json.load(open(ctx.replay))["detail"].get("proc"):
+        procb, allb = allb, []
+    elif not ctx.replay:
+        if not os.environ.get("VERIF_SKIP_MC"):
+            r1 = ctx.model_check("trie", "MC_SyncProc", "MC_SyncProc_cov.cfg", coverage=True, timeout=900)
+            ctx.check_coverage(r1, ["Respond", "Late", "Migrate"])
+            ctx.model_check("trie", "MC_SyncProc", "MC_SyncProc.cfg", timeout=ctx.pick(900, 3000),
+                            constants={"Vals": ctx.pick("{1}", "{1, 2}")})
+        procb = ctx.behaviours("trie", "Gen_SyncProc", "Gen_SyncProc.cfg", simulate="num=%d" % ctx.pick(40, 300),
+                               depth=32, seed=ctx.seed + 3, timeout=ctx.pick(900, 3000))
+    if procb:
+        pin = ctx.path("in", "proc.ndjson")
+        with open(pin, "w") as fh:
+            for b in procb:
+                fh.write(json.dumps(b) + "\n")
+        precs = ctx.go_replay("statesync", "TestReplayProc", pin, timeout=ctx.pick(900, 3000), env=env, shards=ctx.pick(4, 8))
+        ctx.absorb(precs)
+        ctx.notes.append("sync processor behaviours: %d" % len(procb))
     inp = ctx.path("in", "behaviours.ndjson")
     with open(inp, "w") as fh:
         for b in allb:
